@@ -1,8 +1,253 @@
 /-
-  C10 — property theorems (placeholder while the driver is brought up).
+  C10 — property theorems.
+
+  Reading guide. `S : Schema` is what the real `schema.New` returned, abstracted: the definition
+  (named types by name in a table) and the two registries. `Accepted S` is the invariant of
+  `schema.New`'s result the resolvers rely on (Model.lean `accepted`; the harness evaluates it on
+  every real schema). `F` is the request's feature set. `introspect S F` is the model of the
+  standard introspection query (Model.lean), `visible S F` / `describe` the specification
+  (Spec.lean).
 -/
-import ApiFu.C10.Model
+import ApiFu.C10.Lemmas
 
 namespace ApiFu.C10
+
+/-! ## Introspection describes the visible schema completely and exactly -/
+
+/-- **describe_exact** — for every accepted schema and every request feature set, what the
+    introspection resolvers return (types listed from the registry and filtered by the request's
+    features, fields filtered by features, interfaces and possible types filtered by features,
+    `possibleTypes` of an interface read from the implementation registry) is exactly the
+    description of the visible schema: each visible type once, each of its visible fields,
+    arguments, input fields, enum values, interfaces and members once with the configured contents,
+    `possibleTypes` of an interface = the visible object types that declare it. -/
+theorem describe_exact {S : Schema} (h : Accepted S) (F : List String) :
+    introspect S F = describe S.defn (visible S F) := by
+  have hf := facts_of_accepted h
+  unfold introspect describe
+  have htypes :
+      sortTypes ((((S.namedTypes.filterMap S.defn.lookup).filter (fun t => subsetOf t.feat.keys F))).map (typeData S F))
+        = sortTypes ((visible S F).types.map (describeType S.defn (visible S F))) := by
+    have hperm := (listed_perm hf F).map (typeData S F)
+    have hpoint : (S.defn.types.filter (fun t => visibleName S F t.name)).map (typeData S F)
+        = (visible S F).types.map (describeType S.defn (visible S F)) := by
+      simp only [visible, List.map_map]
+      apply List.map_congr_left
+      intro t ht
+      have ht' := List.mem_filter.mp ht
+      exact typeData_eq_describeType hf F ht'.1 ht'.2
+    rw [← hpoint]
+    apply sortTypes_eq_of_perm hperm
+    have hnames : (((S.namedTypes.filterMap S.defn.lookup).filter (fun t => subsetOf t.feat.keys F)).map (typeData S F)).map (·.name)
+        = ((S.namedTypes.filterMap S.defn.lookup).filter (fun t => subsetOf t.feat.keys F)).map (·.name) := by
+      simp [List.map_map, Function.comp_def, typeData_name]
+    rw [hnames]
+    have hp2 := (listed_perm hf F).map (·.name)
+    rw [hp2.nodup_iff]
+    exact hf.tableNodup.sublist ((List.filter_sublist).map _)
+  show ({ queryType := S.defn.query, mutationType := S.defn.mutation, subscriptionType := S.defn.subscription,
+          types := sortTypes ((((S.namedTypes.filterMap S.defn.lookup).filter (fun t => subsetOf t.feat.keys F))).map (typeData S F)),
+          directives := S.defn.directives.map (directiveData S.defn) } : IntroData) = _
+  rw [htypes]
+  rfl
+
+
+/-- **visible_closed** — the schema visible to a request is closed under references: the type of
+    every visible field, argument and input field, every listed interface, every union member and
+    every directive argument type is itself visible. This is where the feature constraints of
+    `shallowValidate` and fix patch 04 are needed. Directives are not feature-gated and
+    `schema.New` accepts a directive argument of a gated type (open finding F-10g), hence the second
+    hypothesis; `visible_not_closed_gated_directive_argument` below shows it cannot be dropped. -/
+theorem visible_closed {S : Schema} (h : Accepted S) (hd : DirArgsUngated S) (F : List String) :
+    ClosedV (visible S F) := by
+  have hf := facts_of_accepted h
+  constructor
+  · intro u hu n hn
+    simp only [visible, List.mem_map, List.mem_filter] at hu
+    obtain ⟨t, ⟨ht, hv⟩, rfl⟩ := hu
+    have hreg := reg_of_visibleName hv
+    have htF := visible_feat hf ht hv
+    apply mem_visible_names hf
+    rcases mem_refNames hn with ⟨f, hfm, hcase⟩ | ⟨a, ha, rfl⟩ | hi | hm
+    · -- a visible field of `t`, or one of its arguments
+      simp only [restrict, List.mem_filter] at hfm
+      obtain ⟨hfm, hfF⟩ := hfm
+      have hkind : t.kind = .object ∨ t.kind = .interface := by
+        by_cases h1 : t.kind = .object
+        · exact Or.inl h1
+        · by_cases h2 : t.kind = .interface
+          · exact Or.inr h2
+          · have := hf.shapeFields t ht h1 h2
+            rw [this] at hfm
+            cases hfm
+      have hff := hf.fieldFeat t ht hreg hkind f hfm
+      have hsub : subsetOf (f.feat.keys ++ t.feat.keys) F = true := subsetOf_append hfF htF
+      rcases hcase with rfl | ⟨a, ha, rfl⟩
+      · exact visibleName_of (hf.refsReg t ht hreg _ (mem_refNames_field hfm)) (subsetOf_trans hff.1 hsub)
+      · exact visibleName_of (hf.refsReg t ht hreg _ (mem_refNames_arg hfm ha)) (subsetOf_trans (hff.2 a ha) hsub)
+    · -- an input field
+      have ha' : a ∈ t.inputs := ha
+      have hkind : t.kind = .inputObject := by
+        by_cases h1 : t.kind = .inputObject
+        · exact h1
+        · have := hf.shapeInputs t ht h1
+          rw [this] at ha'
+          cases ha'
+      exact visibleName_of (hf.refsReg t ht hreg _ (mem_refNames_input ha'))
+        (subsetOf_trans (hf.inputFeat t ht hreg hkind a ha') htF)
+    · -- a visible interface
+      simp only [restrict, List.mem_filter] at hi
+      exact hi.2
+    · -- a union member
+      have hm' : n ∈ t.members := hm
+      have hkind : t.kind = .union := by
+        by_cases h1 : t.kind = .union
+        · exact h1
+        · have := hf.shapeMembers t ht h1
+          rw [this] at hm'
+          cases hm'
+      exact visibleName_of (hf.refsReg t ht hreg _ (mem_refNames_member hm'))
+        (subsetOf_trans (hf.memberFeat t ht hreg hkind n hm') htF)
+  · intro dd hdd a ha
+    apply mem_visible_names hf
+    have hdd' : dd ∈ S.defn.directives := hdd
+    apply visibleName_of (hf.dirArgsReg dd hdd' a ha)
+    rw [dirArgFeat_of hd dd hdd' a ha]
+    rfl
+
+
+
+/-- **describe_types_once** — the description lists exactly the types of the visible schema, each
+    once (a permutation of the visible schema's type names). -/
+theorem describe_types_names_perm (D V : SchemaDef Unit) :
+    ((describe D V).types.map (·.name)).Perm (V.types.map (·.name)) := by
+  unfold describe
+  have := (sortTypes_perm (V.types.map (describeType D V))).map (·.name)
+  simpa [List.map_map, Function.comp_def, describeType_name] using this
+
+
+/-- **describe_refs_resolve** — in the description of a closed visible schema every type reference
+    (field types, argument and input-field types, interfaces, possible types, directive argument
+    types; at any wrapper depth the query reaches) names a listed type. -/
+theorem describe_refs_resolve {D V : SchemaDef Unit} (hc : ClosedV V) {r : RefD}
+    (hr : r ∈ (describe D V).refs) {n : String} (hn : r.leaf? = some n) :
+    n ∈ (describe D V).types.map (·.name) := by
+  rw [(describe_types_names_perm D V).mem_iff]
+  simp only [IntroData.refs, List.mem_append, List.mem_flatMap] at hr
+  rcases hr with ⟨x, hx, hr⟩ | ⟨dd, hdd, hr⟩
+  · simp only [describe] at hx
+    have hx' := mem_sortTypes.mp hx
+    simp only [List.mem_map] at hx'
+    obtain ⟨t, ht, rfl⟩ := hx'
+    exact describeType_refs hc ht hr hn
+  · simp only [describe, List.mem_map] at hdd
+    obtain ⟨d0, hd0, rfl⟩ := hdd
+    simp only [DirectiveD.refs, directiveData, List.mem_flatMap, List.mem_map] at hr
+    obtain ⟨ivd, ⟨a, ha, rfl⟩, hr⟩ := hr
+    simp only [InputValueD.refs, inputValueData0, List.mem_singleton] at hr
+    subst hr
+    rw [refData_leaf _ _ _ hn]
+    exact hc.2 d0 hd0 a ha
+
+
+/-! ### F-10g: the witness -/
+
+def noDirs : DirList Unit := { id := (), items := [] }
+def noFeat : Feat Unit := { id := (), keys := [] }
+
+def mkType (k : Kind) (n : String) (feat : List String) (fields : List (FieldDef Unit))
+    (values : List (EnumValueDef Unit)) : TypeDef Unit :=
+  { kind := k, name := n, description := "", self := (), feat := { id := (), keys := feat }, dirs := noDirs,
+    fieldsId := (), fields := fields, ifacesId := (), ifaces := [], membersId := (), members := [],
+    valuesId := (), values := values, inputsId := (), inputs := [] }
+
+def mkField (n : String) (t : TRef) : FieldDef Unit :=
+  { name := n, description := "", self := (), type := { wid := (), ref := t }, argsId := (), args := [],
+    deprecation := "", feat := noFeat, dirs := noDirs }
+
+/-- `enum E @features(x) { A }`, `type Query { b: Int }`, `directive @tag(e: E) on FIELD`. -/
+def witnessG : Schema :=
+  { defn :=
+      { types := [mkType .enum "E" ["x"] [] [{ name := "A", description := "", self := (), deprecation := "", dirs := noDirs }],
+                  mkType .scalar "Int" [] [] [],
+                  mkType .object "Query" [] [mkField "b" (.named "Int")] []],
+        query := some "Query", mutation := none, subscription := none, additionalId := (), additional := [],
+        directivesId := (),
+        directives := [{ name := "tag", description := "", self := (), locsId := (), locs := ["FIELD"], argsId := (),
+                         args := [{ name := "e", description := "", self := (), type := { wid := (), ref := .named "E" }, default := none }] }] },
+    namedTypes := ["E", "Query", "Int"],
+    impls := [] }
+
+/-- The witness schema is accepted (it satisfies everything `schema.New` establishes). -/
+theorem witnessG_accepted : Accepted witnessG := by
+  unfold Accepted
+  decide
+
+example : (registries witnessG.defn).names = ["E", "Query", "Int"] := by decide
+
+/-- **F-10g negation witness** — without `DirArgsUngated` the visible schema need not be closed:
+    for the request without feature `x` the directive `@tag(e: E)` is visible, `E` is not. -/
+theorem visible_not_closed_gated_directive_argument : ¬ ClosedV (visible witnessG []) := by
+  intro hc
+  have := hc.2 _ (List.mem_cons_self) _ (List.mem_cons_self)
+  revert this
+  decide
+
+
+/-- Non-vacuity of `describe_exact` / `visible_closed`: the same schema without the directive
+    satisfies both hypotheses (and its enum `E` is hidden from the request without feature `x`). -/
+def witnessOk : Schema := { witnessG with defn := { witnessG.defn with directives := [] } }
+
+example : Accepted witnessOk ∧ DirArgsUngated witnessOk
+    ∧ (visible witnessOk []).types.map (·.name) = ["Int", "Query"]
+    ∧ (visible witnessOk ["x"]).types.map (·.name) = ["E", "Int", "Query"] := by
+  unfold Accepted DirArgsUngated
+  decide
+
+/-! ## Clone -/
+
+/-- The schema `schema.New` builds from a Go definition `d` (heap model): the registries of the
+    definition with identities erased (the model's `registries`, tied to the real `schema.New` by
+    the harness on every case). -/
+def newSchema (d : GDef) : Schema :=
+  { defn := d.erase, namedTypes := (registries d.erase).names, impls := (registries d.erase).impls }
+
+/-- **clone_preserves_contents** — `Clone` changes identities only: with identities erased the
+    clone *is* the original (no description, default value, deprecation reason, feature, location,
+    applied directive, wrapper or member is lost or altered). -/
+theorem clone_preserves_contents (b : Nat) (d : GDef) : (cloneDef b d).erase = d.erase :=
+  erase_cloneDef b d
+
+/-- **clone_same_introspection** — a cloned definition introspects identically to its original,
+    for every request feature set. -/
+theorem clone_same_introspection (b : Nat) (d : GDef) (F : List String) :
+    introspect (newSchema (cloneDef b d)) F = introspect (newSchema d) F := by
+  unfold newSchema
+  rw [erase_cloneDef]
+
+/-- The same for whatever registries are observed (they are functions of the erased definition). -/
+theorem clone_same_introspection_any (b : Nat) (d : GDef) (reg : List String) (impls : List (String × List String))
+    (F : List String) :
+    introspect { defn := (cloneDef b d).erase, namedTypes := reg, impls := impls } F
+      = introspect { defn := d.erase, namedTypes := reg, impls := impls } F := by
+  rw [erase_cloneDef]
+
+/-- **clone_fresh** — every mutable container of the clone (every pointed-to struct, map and slice;
+    the built-in scalar singletons exempt) was allocated by `Clone`: its identity is at or above the
+    allocation base. Needs that `Inspect` reaches every named type of the table (`InspectClosed`). -/
+theorem clone_fresh {b : Nat} {d : GDef} (hc : InspectClosed d) : ∀ n ∈ (cloneDef b d).ids, b ≤ n :=
+  ids_cloneDef hc
+
+/-- **clone_disjoint** — the clone shares no mutable container with its original: when the
+    allocation base lies above every identity of the original (allocation returns fresh memory),
+    no identity of the clone is an identity of the original. (Before fix patch 01 this was false:
+    `RequiredFeatures` maps, `Locations`, applied-directive `Arguments` and enum-value `Directives`
+    kept their identities.) -/
+theorem clone_disjoint {b : Nat} {d : GDef} (hb : ∀ i ∈ d.ids, i < b) (hc : InspectClosed d) :
+    ∀ n ∈ (cloneDef b d).ids, n ∉ d.ids := by
+  intro n hn hmem
+  have h1 := ids_cloneDef hc n hn
+  have h2 := hb n hmem
+  omega
 
 end ApiFu.C10
